@@ -41,6 +41,19 @@ func statusFrom(m *gt.Message) error {
 	return status.FromProto(&spb.Status{Code: m.Code, Message: "fail", Details: m.ErrorDetails}).Err()
 }
 
+// streamStatusMsg is the status message of the streaming handlers: like many
+// real handlers they quote the offending request bytes in it.
+func streamStatusMsg(m *gt.Message) string {
+	if len(m.Payload) == 0 {
+		return "fail"
+	}
+	return "fail: " + string(m.Payload)
+}
+
+func streamStatusFrom(m *gt.Message) error {
+	return status.FromProto(&spb.Status{Code: m.Code, Message: streamStatusMsg(m), Details: m.ErrorDetails}).Err()
+}
+
 func mdFromMap(m map[string][]byte) metadata.MD {
 	md := metadata.MD{}
 	for k, v := range m {
@@ -99,7 +112,12 @@ func newSvc(c *counters) *common.Svc {
 						return err
 					}
 					if m.Code != 0 {
-						return statusFrom(m)
+						if m.Count > 0 { // answer with what was received so far, then fail
+							if err := s.SendMsg(&gt.Message{Count: n, Payload: payload}); err != nil {
+								return err
+							}
+						}
+						return streamStatusFrom(m)
 					}
 					n++
 					payload = append(payload, m.Payload...)
@@ -114,13 +132,13 @@ func newSvc(c *counters) *common.Svc {
 				if err := s.RecvMsg(m); err != nil {
 					return err
 				}
-				if m.Code != 0 {
-					return statusFrom(m)
-				}
 				for i := int32(0); i < m.Count && i < 8; i++ {
 					if err := s.SendMsg(&gt.Message{Payload: m.Payload, Count: i}); err != nil {
 						return err
 					}
+				}
+				if m.Code != 0 { // fails after the data it was asked for (none when Count is 0)
+					return streamStatusFrom(m)
 				}
 				return nil
 			}},
@@ -139,7 +157,14 @@ func newSvc(c *counters) *common.Svc {
 						return err
 					}
 					if m.Code != 0 {
-						return statusFrom(m)
+						if m.Count > 0 { // echo everything received, including this message, then fail
+							for _, x := range append(all, m) {
+								if err := s.SendMsg(&gt.Message{Payload: x.Payload, Count: x.Count + 1}); err != nil {
+									return err
+								}
+							}
+						}
+						return streamStatusFrom(m)
 					}
 					all = append(all, m)
 				}
